@@ -112,6 +112,13 @@ def check_property(pid, tier, seed, shared=None):
         return 2
     with open(LOCK) as f:
         lock = json.load(f)['obligations']
+    skipped = extra.get('skipped', [])
+    if skipped:
+        # obligations of a left-out function are in the lock table but not in this run's table: which properties do they carry?
+        hit = sorted({oid.split('/')[0] for oid, tags in lock.items() if pid in tags and oid.split('/')[0] in skipped})
+        if hit:
+            print('UNDECIDED: %s has obligations in %s, whose body is outside the verifier subset in this tree' % (pid, hit))
+            return 2
     mine = {oid: o for oid, o in G.obligations.items() if pid in o['tags']}
     mine_contract = {oid for oid, o in mine.items() if o['kind'] != 'call-requires' and o.get('origin') != 'R12'}
     locked = {oid for oid, tags in lock.items() if pid in tags}
@@ -288,14 +295,24 @@ ASSUMPTIONS = [
 
 
 def run_all(tier):
-    G = driver.assemble()
-    Gc = driver.assemble(canary=True)
-    wd = tempfile.mkdtemp(prefix='xcpverif-')
-    try:
-        res, resc = run_pair(G, Gc, wd, rlimit=(60 if tier == 'thorough' else None))
-    finally:
-        shutil.rmtree(wd, ignore_errors=True)
-    failed, tool, fn_status = driver.classify(G, res)
+    """Run Verus on the real file and the canary file.  If the generated file does not compile because of text inside some function bodies
+    (a construct outside the subset, an API without stand-in), those functions are left out (contract kept, body dropped) and the run is
+    repeated: only the properties with obligations in such functions become undecided, the others are still decided."""
+    skip = set()
+    for attempt in range(3):
+        G = driver.assemble(skip=skip)
+        Gc = driver.assemble(canary=True, skip=skip)
+        wd = tempfile.mkdtemp(prefix='xcpverif-')
+        try:
+            res, resc = run_pair(G, Gc, wd, rlimit=(60 if tier == 'thorough' else None))
+        finally:
+            shutil.rmtree(wd, ignore_errors=True)
+        failed, tool, fn_status = driver.classify(G, res)
+        if tool and G.tool_fids and not G.tool_unmapped and not (G.tool_fids <= skip) and attempt < 2:
+            print('NOTE: leaving out %s (outside the verifier subset in this tree): %s' % (sorted(G.tool_fids), tool[0][:160]))
+            skip |= G.tool_fids
+            continue
+        break
     if res.get('json') is None:
         tool.append('verus produced no JSON: %s' % (res.get('raw_out', '')[:300] + ' '.join(res['raw_err'][:5])))
     failedc, toolc, _ = driver.classify(Gc, resc)
@@ -314,6 +331,7 @@ def run_all(tier):
         extra = thorough.run(G)
         if extra.get('tool'):
             tool += extra['tool']
+    extra['skipped'] = sorted(skip)
     return G, Gc, res, resc, failed, tool, fn_status, canary_bad, extra
 
 
